@@ -63,6 +63,38 @@ func include(d *lib.Drv, variant string, tr []Ev, askStuck bool) (reject string,
 	return "", maxSet, stuck, nil
 }
 
+// earliest moves every receive of a blocking reader to the position at which the receive began.
+func earliest(tr []Ev) ([]Ev, bool) {
+	moved := false
+	out := make([]Ev, 0, len(tr))
+	var late []Ev
+	for _, e := range tr {
+		if e.Lo > 0 {
+			late = append(late, e)
+			moved = true
+		}
+	}
+	if !moved {
+		return tr, false
+	}
+	for i, e := range tr {
+		for _, l := range late {
+			if l.Lo == i {
+				out = append(out, l)
+			}
+		}
+		if e.Lo == 0 {
+			out = append(out, e)
+		}
+	}
+	for _, l := range late {
+		if l.Lo >= len(tr) {
+			out = append(out, l)
+		}
+	}
+	return out, true
+}
+
 func bucket(n int) string {
 	switch {
 	case n <= 1:
@@ -143,7 +175,18 @@ func main() {
 		res.Sample(map[string]any{"scenario": sc, "trace_len": len(o.Trace), "received": nrecv})
 		// trace inclusion
 		if d != nil {
+			used := o.Trace // the trace as finally submitted to the model
 			rej, maxSet, _, err := include(d, "fixed", o.Trace, false)
+			if err == nil && rej != "" && rej != "overflow" {
+				// receives of blocking readers have an interval, not a position: also try them at
+				// the earliest position
+				if alt, moved := earliest(o.Trace); moved {
+					if rej2, m2, _, err2 := include(d, "fixed", alt, false); err2 == nil && rej2 == "" {
+						rej, maxSet, used = "", m2, alt
+						res.Hit("blocking-receive-placed-at-its-start")
+					}
+				}
+			}
 			if err != nil {
 				res.Note("model driver failed: " + err.Error())
 				d = nil
@@ -163,7 +206,7 @@ func main() {
 			}
 			// the driver's state-set reduction must not change any verdict
 			if d != nil && err == nil && rej != "overflow" && res.Evaluations%3 == 0 {
-				rej0, _, _, err0 := include(d, "fixed reduce=0 eager=0 cap=6000", o.Trace, false)
+				rej0, _, _, err0 := include(d, "fixed reduce=0 eager=0 cap=6000", used, false)
 				switch {
 				case err0 != nil:
 					res.Note("model driver failed: " + err0.Error())
